@@ -674,8 +674,12 @@ class Walker:
             if self.loop_mode != "once_only":
                 res.append(Outcome("val", st, UNIT))
             for ms in matched:
+                if ms is st:
+                    ms = ms.copy()
+                ms.events.append({"kind": "loop_begin", "id": id(n), "node": n})
                 for o in self.eval(n["body"], ms):
                     if o.kind in ("val", "cont", "break"):
+                        o.state.events.append({"kind": "loop_end", "id": id(n), "node": n, "exit": o.kind})
                         res.append(Outcome("val", o.state, UNIT))
                     else:
                         res.append(o)
@@ -699,12 +703,16 @@ class Walker:
                 else:
                     res.append(Outcome("val", st, UNIT))
         for st, _ in entries:
+            st = st.copy()
+            st.events.append({"kind": "loop_begin", "id": id(body), "node": body})
             for o in self.eval(body, st):
                 if o.kind == "break":
+                    o.state.events.append({"kind": "loop_end", "id": id(body), "node": body, "exit": "break"})
                     res.append(Outcome("val", o.state, UNIT))
                 elif o.kind in ("val", "cont"):
                     # one iteration done; leave the loop (summary: body executed once)
                     if not infinite or self.loop_mode == "once":
+                        o.state.events.append({"kind": "loop_end", "id": id(body), "node": body, "exit": o.kind})
                         res.append(Outcome("val", o.state, UNIT))
                 else:
                     res.append(o)
@@ -992,6 +1000,11 @@ class Walker:
             name = pat["name"]
             if "sub" not in pat and name not in st.env:
                 enums = self.facts.variant_index.get(name)
+                vty = getattr(v, "ty", None) or (v.enum if isinstance(v, EnumV) else None)
+                if name == "None" and not (vty is not None and norm_ty(vty) in (enums or [])):
+                    # the prelude's Option::None, unless the scrutinee is known to be of a crate
+                    # enum that has a variant of that name (VariableDefinition::None)
+                    return self.split_variant(st, v, "Option", "None", [], None, bind)
                 if enums and len(enums) == 1 and name[0].isupper():
                     flds = self.facts.variant_fields(enums[0], name)
                     if not flds:
